@@ -362,6 +362,87 @@ fn jobs(seed: u64, n_matrices: u64, n_large: u64, n_many: u64) -> (Vec<Job>, Vec
     (jobs, descr, n_discriminating, n_partial)
 }
 
+// ---------------------------------------------------------------- large groups of co-survivors
+
+/// Thousands of individuals survive every case together (an elite of exact ties) next to a few dominated
+/// ones: the final choice must be uniform over the elite - judged by the frequencies of its quarters and
+/// thirds - and never fall on a dominated individual.  Few draws suffice (each costs O(population)).
+fn tie_group_jobs(thorough: bool) -> Vec<Job> {
+    let mut jobs = vec![];
+    let mut sizes = vec![1_025usize, 1_500, 3_000, 49_152, 70_000];
+    if thorough {
+        sizes.extend([12_288, 24_576, 40_000, 65_535, 65_537, 98_304]);
+    }
+    for (k, elite) in sizes.into_iter().enumerate() {
+        for errors in [false, true] {
+            if (k + usize::from(errors)) % 2 == 1 && !thorough {
+                continue;
+            }
+            let name = format!("Lexicase::new(2) on an elite of {elite} exact ties ({}) and 7 dominated individuals", if errors { "errors" } else { "scores" });
+            jobs.push(Job {
+                name: name.clone(),
+                run: Box::new(move |trials, seed| {
+                    let draws = (trials / 100).clamp(3_000, 40_000);
+                    // dominated individuals are spread through the population; position -> rank within the elite
+                    let n = elite + 7;
+                    let is_dominated = |i: usize| i % (n / 7) == 3 && i / (n / 7) < 7;
+                    let (good, bad) = if errors { (1i64, 2i64) } else { (2i64, 1i64) };
+                    let matrix: Vec<Vec<i64>> = (0..n).map(|i| if is_dominated(i) { vec![good, bad] } else { vec![good, good] }).collect();
+                    let mut rank = vec![usize::MAX; n];
+                    let mut next = 0usize;
+                    for i in 0..n {
+                        if !is_dominated(i) {
+                            rank[i] = next;
+                            next += 1;
+                        }
+                    }
+                    let elite_n = next;
+                    let lex = Lexicase::new(2);
+                    let mut rng = StdRng::seed_from_u64(seed);
+                    let mut quarters = [0u64; 4];
+                    let mut thirds = [0u64; 3];
+                    let mut one = |id: usize| -> Result<(), Fail> {
+                        let r = *rank.get(id).unwrap_or(&usize::MAX);
+                        if r == usize::MAX {
+                            return Err(Fail::new("Lexicase/dominated-winner", format!("{name}: returned individual {id}, which is dominated")));
+                        }
+                        quarters[r * 4 / elite_n] += 1;
+                        thirds[r * 3 / elite_n] += 1;
+                        Ok(())
+                    };
+                    macro_rules! sample {
+                        ($pop:expr) => {{
+                            let pop = $pop;
+                            for _ in 0..draws {
+                                match guarded(|| lex.select(&pop, &mut rng).map(|w| w.genome as usize).map_err(|e| e.to_string())) {
+                                    Err(p) => return Err(Fail::new(format!("Lexicase/panic:{}", panic_key(&p)), format!("{name}: panicked: {p}"))),
+                                    Ok(Err(e)) => return Err(Fail::new("Lexicase/spurious-error", format!("{name}: {e}"))),
+                                    Ok(Ok(id)) => one(id)?,
+                                }
+                            }
+                        }};
+                    }
+                    if errors {
+                        sample!(population::<ErrRes<i64>>(&matrix, |r| ErrRes(r.iter().sum())));
+                    } else {
+                        sample!(population::<Score<i64>>(&matrix, |r| Score(r.iter().sum())));
+                    }
+                    let share = |parts: usize, b: usize| ((0..elite_n).filter(|r| r * parts / elite_n == b).count()) as f64 / elite_n as f64;
+                    let mut stats = vec![];
+                    for b in 0..4 {
+                        stats.push(Stat::new("Lexicase/final-choice-not-uniform", format!("{name}: a member of quarter {b} of the elite selected"), quarters[b], draws, share(4, b)));
+                    }
+                    for b in 0..3 {
+                        stats.push(Stat::new("Lexicase/final-choice-not-uniform", format!("{name}: a member of third {b} of the elite selected"), thirds[b], draws, share(3, b)));
+                    }
+                    Ok(stats)
+                }),
+            });
+        }
+    }
+    jobs
+}
+
 // ---------------------------------------------------------------- per-draw support under generated random streams
 
 /// One selector value, a generated random stream (with extreme words), a few draws: every winner must be
@@ -535,13 +616,14 @@ pub fn run(ctx: &mut Ctx) {
     let (n_matrices, trials) = ctx.tier.pick((400u64, 400_000u64), (8_000, 2_000_000));
     let n_large = ctx.tier.pick(12u64, 120);
     let n_many = ctx.tier.pick(36u64, 360);
-    ctx.rule = format!("{n_matrices} generated result matrices (1..8 individuals x 0..5 cases, values 0..3, specialists / heavy ties / groups of exact copies / singleton / zero cases / more cases than individuals, both polarities; in a quarter of the matrices every per-case result is a group of sub-results - the crate's TestResults as the per-case type - ordered by its total, so that equal-ranking results need not be structurally equal), plus {n_large} larger ones (12..100 individuals x 6..8 cases), and {n_many} with 33..257 cases whose law is known analytically (specialists: P(i) = own special cases / all special cases), configured case count = number of results in 3 of 5 matrices and a smaller count (0 included) otherwise; {trials} seeded draws each through the real Lexicase. Oracle: the exact law P(i) = sum over all case orders [i survives] / (|survivors| * c!) with an independent definition of 'better'; every draw: P(winner) > 0 (never dominated) exactly; frequencies by the Chernoff/KL rule. per_draw_support: generated matrices (0..10 individuals x 0..5 cases, ties, copies, extreme values, both polarities, plain and grouped results), configured count <= number of results, a generated random stream with extreme words, 1..4 draws from one selector value which in a third of the cases also selects from another population in between; every winner must be an element of the population that survives under at least one order of an admissible set of considered cases. non-trivial = a (matrix, individual) statistic with 0 < p < 1; for per_draw_support >= 3 individuals, >= 2 configured cases and at least one individual that can never win");
+    ctx.rule = format!("{n_matrices} generated result matrices (1..8 individuals x 0..5 cases, values 0..3, specialists / heavy ties / groups of exact copies / singleton / zero cases / more cases than individuals, both polarities; in a quarter of the matrices every per-case result is a group of sub-results - the crate's TestResults as the per-case type - ordered by its total, so that equal-ranking results need not be structurally equal), plus {n_large} larger ones (12..100 individuals x 6..8 cases), and {n_many} with 33..257 cases whose law is known analytically (specialists: P(i) = own special cases / all special cases), configured case count = number of results in 3 of 5 matrices and a smaller count (0 included) otherwise; {trials} seeded draws each through the real Lexicase. Oracle: the exact law P(i) = sum over all case orders [i survives] / (|survivors| * c!) with an independent definition of 'better'; every draw: P(winner) > 0 (never dominated) exactly; frequencies by the Chernoff/KL rule. large tie groups: elites of 1025..70000 (thorough: ..98304) exact ties next to 7 dominated individuals, the final choice judged by the frequencies of the elite's quarters and thirds. per_draw_support: generated matrices (0..10 individuals x 0..5 cases, ties, copies, extreme values, both polarities, plain and grouped results), configured count <= number of results, a generated random stream with extreme words, 1..4 draws from one selector value which in a third of the cases also selects from another population in between; every winner must be an element of the population that survives under at least one order of an admissible set of considered cases. non-trivial = a (matrix, individual) statistic with 0 < p < 1; for per_draw_support >= 3 individuals, >= 2 configured cases and at least one individual that can never win");
     ctx.assumptions.push("for a configured case count c smaller than the number of results the statement does not say which c cases are considered: the law of every fixed c-subset and of a uniformly random c-subset are all accepted (the observed frequencies are judged against the reading that fits them best), and a winner only has to be possible under one of them".into());
     let (jobs, descr, discriminating, partial) = jobs(ctx.seed, n_matrices, n_large, n_many);
     ctx.extra.insert("matrices_with_fewer_configured_cases_than_results".into(), json!(partial));
     ctx.extra.insert("sample_matrices".into(), json!(descr));
     ctx.extra.insert("matrices_whose_law_differs_from_no_shuffle_and_first_case_only".into(), json!(discriminating));
     run_jobs(ctx, "lexicase_laws", jobs, trials);
+    run_jobs(ctx, "lexicase_large_tie_groups", tie_group_jobs(ctx.tier == crate::Tier::Thorough), trials);
     let n = ctx.tier.pick(200_000u32, 4_000_000);
     ctx.run_prop("per_draw_support", n, draw_strategy, draw_oracle);
     // coverage-guided search over the same strategy and oracle (thorough tier; see ptfuzz.rs)
